@@ -135,6 +135,7 @@ def evaluate(ctx, cases):
         if not getattr(ctx, "_file_docs_done", False):
             ctx._file_docs_done = True
             _file_documents(ctx, loop)
+            _raising_functions(ctx, loop)
         batch = []
         for (c, compiled), m in zip(meta, outs):
             doc, extra = c["doc"], c.get("ctx") or {}
@@ -225,6 +226,40 @@ def _file_documents(ctx, loop):
                 if ns != na:
                     ctx.violation("on a file-like document the asynchronous call must return what the synchronous call returns, or raise the same kind of error",
                                   {"text": text, "document": name, "entry_point": ep}, na, ns)
+
+
+def _raising_functions(ctx, loop):
+    """Function calls that fail at evaluation time - a registered plain callable with a bug of its own, or a standard function
+    given the wrong kind of argument with type checks off: the asynchronous call raises what the synchronous call raises."""
+    import jsonpath
+
+    class Loose(jsonpath.JSONPathEnvironment):
+        pass
+    envs = {"well_typed=False": jsonpath.JSONPathEnvironment(well_typed=False), "custom callable": Loose()}
+    envs["custom callable"].function_extensions["upper"] = lambda s: s.upper()              # AttributeError on a number
+    envs["custom callable"].function_extensions["half"] = lambda n: n / 2                    # TypeError on a string
+    envs["custom callable"].function_extensions["first"] = lambda xs: xs[0]                 # IndexError / KeyError / TypeError
+    queries = {"well_typed=False": ["$[?typeof(value(@.a)) == 'string']", "$[?is('x', 'str')]", "$[?value('a') == 1]", "$[?count(1) > 0]", "$[?typeof(1) == 'number']",
+                                    "$[?length(@.a) == 1]"],
+               "custom callable": ["$[?upper(@.a) == 'X']", "$[?half(@.a) == 1]", "$[?first(@.a) == 1]", "$[?upper(@.s) == 'X' || half(@.n) == 1]"]}
+    docs = [[{"a": "x", "s": "x", "n": 2}], [{"a": 1, "s": 1, "n": "2"}], [{"a": []}], [{"a": None}], [{}], [1, "x"]]
+    for name, env in envs.items():
+        for text in queries[name]:
+            co = core.outcome(lambda: env.compile(text))
+            if "err" in co:
+                continue
+            q = co["ok"]
+            for d in docs:
+                ctx.count("raising-functions")
+                s_ = core.outcome(lambda: [core.canon(v) for v in q.findall(copy.deepcopy(d))])
+                a_ = core.outcome(lambda: [core.canon(v) for v in loop.run_until_complete(q.findall_async(copy.deepcopy(d)))])
+                i_ = core.outcome(lambda: loop.run_until_complete(_collect(q.finditer_async(copy.deepcopy(d)))))
+                ns = s_["ok"] if "ok" in s_ else {"err": s_["err"]}
+                na = a_["ok"] if "ok" in a_ else {"err": a_["err"]}
+                ni = [core.canon(m.obj) for m in i_["ok"]] if "ok" in i_ else {"err": i_["err"]}
+                if na != ns or ni != ns:
+                    ctx.violation("the asynchronous entry points return what the synchronous one returns, or raise the same kind of error, also when a function call fails at evaluation time",
+                                  {"environment": name, "text": text, "doc": d}, {"findall_async": na, "finditer_async": ni}, ns)
 
 
 def _one_query_many_documents(ctx, loop):
